@@ -10,6 +10,7 @@ def replay_native(m):
     from cogent3.app.composable import NotCompleted, define_app
     from cogent3.app.typing import AlignedSeqsType
     calls = []
+    calls_up = []
     aln = make_aligned_seqs({"a": "ACGT", "b": "ACGA"}, moltype="dna")
     script = info["main"]
 
@@ -26,9 +27,12 @@ def replay_native(m):
                        "ZeroDivisionError": ZeroDivisionError, "KeyboardInterrupt": KeyboardInterrupt}[script.split()[1]]("scripted")
             return val
 
-    @define_app
+    @define_app(skip_not_completed=info.get("up_skip", True))
     class upstream:
         def main(self, val: AlignedSeqsType) -> AlignedSeqsType:
+            calls_up.append(val)
+            if not info.get("up_skip", True) and info["input_out"] == "data":
+                return aln    # an app that handles not-completed values itself may turn one into data
             if info["input_out"] == "NotCompleted":
                 return NotCompleted("ERROR", self, "scripted upstream", source=val)
             return val
@@ -67,8 +71,8 @@ def replay_native(m):
         failed = len(calls) > 1
     else:
         return {"failed": False, "description": "clause has no native evaluator"}
-    return {"failed": failed, "witness": {k: info[k] for k in ("skip", "has_input", "val", "main", "input_out")},
-            "description": f"real app (skip_not_completed={info['skip']}, upstream={info['has_input']}, main scripted to "
+    return {"failed": failed, "witness": {k: info.get(k) for k in ("skip", "has_input", "val", "main", "input_out", "up_skip")},
+            "description": f"real app (skip_not_completed={info['skip']}, upstream={info['has_input']} with skip_not_completed={info.get('up_skip')}, main scripted to "
                            f"{script}) called on {info['val']}: {outcome} {type(r).__name__}"
                            f"{'(' + r.type + ')' if isnc else ''}, main() calls={len(calls)}"}
 
